@@ -596,7 +596,7 @@ impl Check for C04 {
         (Verdict::Pass, info)
     }
     fn rule(&self) -> String {
-        "a well-formed status/login/transfer transcript played to a generated step whose frame is mutated (outer and inner length prefixes: MIN, -1, 0, len-1, len+1, max, max+1, 2max, 2^31-1, arbitrary; truncation at every offset; over-long VarInts of 2-10 groups in length/id/field; invalid UTF-8; out-of-range ordinals; garbage RSA ciphertexts; secrets of the wrong size; random bytes; frame followed by random bytes), before or after the encryption switch, max_packet_length in {64,400,1000,10000,2^17,2^20}; then end of stream. non-trivial = the mutated frame was reached and the class is not 'unmutated'; distinct = distinct case".into()
+        "a well-formed status/login/transfer transcript played to a generated step whose frame is mutated (outer and inner length prefixes: MIN, -1, 0, len-1, len+1, max, max+1, 2max, 2^31-1, arbitrary; truncation at every offset; over-long VarInts of 2-10 groups in length/id/field; invalid UTF-8; out-of-range ordinals; garbage RSA ciphertexts; secrets of the wrong size; random bytes; frame followed by random bytes; floods of unterminated length prefixes), before or after the encryption switch, the configuration phase including a Resource Pack Response (ordinal) and Client Information whose locale (multi-byte characters, separators only, up to 40 characters) is localised by the real fixed localization adapter, max_packet_length in {64,400,1000,10000,2^17,2^20}; then end of stream. non-trivial = the mutated frame was reached and the class is not 'unmutated'; distinct = distinct case".into()
     }
     fn assumptions(&self) -> Vec<String> {
         vec![
